@@ -635,7 +635,8 @@ fn extra_mass_check(cx: &mut Ctx, s: &dyn DynSampler, ri: usize, pt: &Point) {
     let (e, l, d) = (line.e, line.l, line.d);
     let (sig, p) = &line.routings[ri];
     let mass: Vec<f64> = (0..e).map(|i| if line.m[i] != 0.0 { line.m[i] } else { [1.5, 0.75, 2.0][(i + ri) % 3] }).collect();
-    let ed: EdgeData<f64> = (0..e).map(|i| (Some(mass[i]), p[i].clone())).collect();
+    // (every other mass is passed with a minus sign: only m_e^2 enters V)
+    let ed: EdgeData<f64> = (0..e).map(|i| (Some(if (i + ri) % 2 == 1 { -mass[i] } else { mass[i] }), p[i].clone())).collect();
     let out = s.sample_f64(&pt.x, &ed, &Settings::new(None, true, true));
     cx.sm.evaluations += 1;
     let x = &pt.x;
